@@ -13,8 +13,8 @@ Proof.
   destruct (cmd_lookup cmds (c :: r)) as [[| n h | rv |]|]; discriminate.
 Qed.
 
-Theorem verify_inst_no_panic now truths tc tcc cmds fuel w path d layout_env keys step_name params inter :
-  is_panic (fst (fst (verify_inst now truths tc tcc cmds fuel w path d layout_env keys step_name params inter))) = false.
+Theorem verify_inst_no_panic now truths tc tcc pems cmds fuel w path d layout_env keys step_name params inter :
+  is_panic (fst (fst (verify_inst now truths tc tcc pems cmds fuel w path d layout_env keys step_name params inter))) = false.
 Proof.
   unfold verify_inst. apply verify_no_panic.
   - exact substitute_no_panic.
@@ -27,11 +27,11 @@ Qed.
 
 (* the observable the end-to-end correspondence harness (harness/e2e) compares with InTotoVerify
    never is the PANIC line *)
-Theorem e2e_run_never_panics now truths tc tcc cmds prefix files d layout_env keys step_name params :
-  has_prefix (e2e_run now truths tc tcc cmds prefix files d layout_env keys step_name params) (bs "PANIC") = false.
+Theorem e2e_run_never_panics now truths tc tcc pems cmds prefix files d layout_env keys step_name params :
+  has_prefix (e2e_run now truths tc tcc pems cmds prefix files d layout_env keys step_name params) (bs "PANIC") = false.
 Proof.
   unfold e2e_run.
-  pose proof (verify_inst_no_panic now truths tc tcc cmds 8 (mkWorld prefix files) [] d layout_env keys step_name params []) as H.
-  destruct (verify_inst now truths tc tcc cmds 8 (mkWorld prefix files) [] d layout_env keys step_name params []) as [[x w'] tr].
+  pose proof (verify_inst_no_panic now truths tc tcc pems cmds 8 (mkWorld prefix files) [] d layout_env keys step_name params []) as H.
+  destruct (verify_inst now truths tc tcc pems cmds 8 (mkWorld prefix files) [] d layout_env keys step_name params []) as [[x w'] tr].
   destruct x as [s|c|p]; [reflexivity | reflexivity | discriminate H].
 Qed.
